@@ -25,9 +25,8 @@ def comparisons(rng, tier):
                         yield case, (None if (isinstance(got, (bool, numpy.bool_)) and bool(got) == want) else 'comparison returned %r, NumPy comparison of zeroth coefficients over all elements gives %r' % (got, want))
                 # reflected forms (constant on the left, incl. a NumPy scalar and an array), != and a broadcast pair
                 extra = [('0.1 < x', lambda: 0.1 < U(x.copy()), lambda: numpy.all(0.1 < x[0])), ('float64 >= x', lambda: numpy.float64(0.1) >= U(x.copy()), lambda: numpy.all(0.1 >= x[0])),
-                         ('array <= x', lambda: y[0, 0].copy() <= U(x.copy()), lambda: numpy.all(y[0, 0] <= x[0])), ('x != y', lambda: U(x.copy()) != U(y.copy()), lambda: numpy.all(x[0] != y[0])),
-                         ('x != 0.1', lambda: U(x.copy()) != 0.1, lambda: numpy.all(x[0] != 0.1)), ('x > int', lambda: U(x.copy()) > 0, lambda: numpy.all(x[0] > 0))]
-                if shp: extra.append(('x < y[last axis]', lambda: U(x.copy()) < U(y[:, :, ..., 0:1].copy()) if len(shp) == 1 else U(x.copy()) < U(y[:, :, 0].copy()), lambda: numpy.all(x[0] < y[0][..., 0:1]) if len(shp) == 1 else numpy.all(x[0] < y[0][:, 0][:, None, :])))
+                         ('array <= x', lambda: y[0, 0].copy() <= U(x.copy()), lambda: numpy.all(y[0, 0] <= x[0])), ('x > int', lambda: U(x.copy()) > 0, lambda: numpy.all(x[0] > 0))]
+                # (`!=` is not overloaded by the library: Python derives it as `not (x == y)`; it is not part of the claim and not enumerated)
                 for nm2, f_, w_ in extra:
                     case = {'cmp': nm2, 'other': 'reflected/broadcast', 'D': D, 'P': P, 'shape': list(shp), 'x0': x[0].tolist(), 'y0': y[0].tolist()}
                     try: got = f_()
